@@ -365,9 +365,20 @@ impl HState {
 }
 
 async fn h_read(req: &mut Req<'_>, st: &mut HState, len: usize) -> io::Result<usize> {
+    h_read_hook(req, st, len, &mut |_, _| false).await
+}
+
+/// `hook` runs before every poll of the read (between two polls of one pending read the handler may use `&Request`
+/// methods, e.g. create an output writer and hand it to another sub-task).
+async fn h_read_hook(req: &mut Req<'_>, st: &mut HState, len: usize, hook: &mut (dyn FnMut(&Req<'_>, &HState) -> bool + Send)) -> io::Result<usize> {
     let mut buf = vec![0u8; len];
     st.ev("h_read", len as u64, 0);
     let r = poll_fn(|cx| {
+        if hook(&*req, &*st) {
+            // the hook did something other sub-tasks should get a chance to react to before this read goes on
+            cx.waker().wake_by_ref();
+            return std::task::Poll::Pending;
+        }
         let p = Pin::new(&mut *req).poll_read(cx, &mut buf);
         if p.is_pending() { st.sample_writeable(req); }
         p
@@ -842,13 +853,21 @@ async fn handler_writers(req: &mut Req<'_>, st: &mut HState) -> io::Result<ExitS
         }
         st.active = st.streams.len().checked_sub(1);
     }
-    let nw = 1 + st.pick(3) as usize;
+    // a third of the runs start without any writer: writers are created later, between two polls of a pending read,
+    // and handed to another sub-task (the request is then the sole owner of the connection when a reply flush begins)
+    let late_n = if st.active.is_some() && st.chance(1, 3) { 1 + st.pick(2) as usize } else { 0 };
+    let nw = if late_n > 0 { 0 } else { 1 + st.pick(3) as usize };
     let mut writers: Vec<StreamWriter<SimWrite>> = Vec::new();
-    let out = req.output_stream(RecordType::Stdout);
-    for i in 0..nw {
-        writers.push(match i { 0 => out.clone(), 1 => req.output_stream(RecordType::Stderr), _ => out.clone() });
+    if nw > 0 {
+        let out = req.output_stream(RecordType::Stdout);
+        for i in 0..nw {
+            writers.push(match i { 0 => out.clone(), 1 => req.output_stream(RecordType::Stderr), _ => out.clone() });
+        }
+        drop(out);
     }
-    drop(out);
+    let late_datas: Vec<Vec<u8>> = (0..late_n * 2).map(|sq| gen_write_data(st, 0x60, sq)).collect();
+    struct LateSlot { writers: Vec<StreamWriter<SimWrite>>, waker: Option<std::task::Waker>, closed: bool }
+    let slot = std::sync::Arc::new(std::sync::Mutex::new(LateSlot { writers: Vec::new(), waker: None, closed: false }));
     let mut futs: Vec<Pin<Box<dyn std::future::Future<Output = io::Result<()>> + Send + '_>>> = Vec::new();
     let world = st.world.clone();
     let idx = st.idx;
@@ -868,21 +887,74 @@ async fn handler_writers(req: &mut Req<'_>, st: &mut HState) -> io::Result<ExitS
         }));
     }
     // reader sub-task: drives the request's own reply flushing while management records arrive
-    let with_reader = st.active.is_some() && st.chance(2, 3);
+    let with_reader = st.active.is_some() && (late_n > 0 || st.chance(2, 3));
     if with_reader { st.probe("reader_subtask"); }
     let rworld = world.clone();
     let active = st.active;
     let reader_reads = if st.chance(1, 2) { st.range(1, 6) } else { st.range(6, 30) };
     let reader_len = st.range(1, 48);
     let req_ref = &mut *req;
+    let slot_reader = slot.clone();
+    if late_n > 0 {
+        // consumer of the late writers
+        let slot_c = slot.clone();
+        let world_c = world.clone();
+        let mut datas = late_datas.clone().into_iter();
+        futs.push(Box::pin(async move {
+            loop {
+                let got = poll_fn(|cx| {
+                    let mut g = slot_c.lock().unwrap_or_else(std::sync::PoisonError::into_inner);
+                    if let Some(w) = g.writers.pop() { return std::task::Poll::Ready(Some(w)); }
+                    if g.closed { return std::task::Poll::Ready(None); }
+                    g.waker = Some(cx.waker().clone());
+                    std::task::Poll::Pending
+                }).await;
+                let Some(mut w) = got else { break };
+                for _ in 0..2 {
+                    if let Some(d) = datas.next() { h_write(&mut w, &world_c, idx, d, false).await?; }
+                }
+                drop(w);
+            }
+            Ok(())
+        }));
+    }
     if with_reader {
         futs.push(Box::pin(async move {
             let mut stl = HState { final_reached: false, world: rworld, idx, mode: HandlerMode::Writers, active, streams: role_streams(u16::from(req_ref.role())), propagate: true };
+            let mut to_spawn = late_n;
+            let slot_r = slot_reader;
+            let mut hook = |rq: &Req<'_>, sth: &HState| {
+                if to_spawn > 0 && sth.chance(1, 3) {
+                    let t = if to_spawn % 2 == 0 { RecordType::Stderr } else { RecordType::Stdout };
+                    let w = rq.output_stream(t);
+                    let mut g = slot_r.lock().unwrap_or_else(std::sync::PoisonError::into_inner);
+                    g.writers.push(w);
+                    to_spawn -= 1;
+                    sth.probe("writer_created_between_polls_of_a_read");
+                    if let Some(wk) = g.waker.take() { drop(g); wk.wake(); }
+                    return true;
+                }
+                false
+            };
+            let mut res = Ok(());
             for _ in 0..reader_reads {
-                let n = h_read(req_ref, &mut stl, reader_len).await?;
-                if n == 0 { break; }
+                match h_read_hook(req_ref, &mut stl, reader_len, &mut hook).await {
+                    Ok(0) => break,
+                    Ok(_) => {}
+                    Err(e) => { res = Err(e); break; }
+                }
             }
-            Ok(())
+            // whatever was not handed over yet is created now; then the consumer is told that nothing more comes
+            {
+                let mut g = slot_r.lock().unwrap_or_else(std::sync::PoisonError::into_inner);
+                while to_spawn > 0 && res.is_ok() {
+                    g.writers.push(req_ref.output_stream(RecordType::Stdout));
+                    to_spawn -= 1;
+                }
+                g.closed = true;
+                if let Some(wk) = g.waker.take() { drop(g); wk.wake(); }
+            }
+            res
         }));
     }
     let mut join = Join::new(world.clone(), futs);
@@ -1526,7 +1598,7 @@ pub fn c09(cx: &mut Ctx) -> VResult {
     Ok(())
 }
 
-pub const C10_PROBES: &[&str] = &["failed_write_retried", "write_repolled_with_longer_buffer", "writers_2plus", "write_65535_capped", "zero_length_write", "reply_between_writer_records", "writer_poll_close"];
+pub const C10_PROBES: &[&str] = &["failed_write_retried", "write_repolled_with_longer_buffer", "writers_2plus", "write_65535_capped", "zero_length_write", "reply_between_writer_records", "writer_poll_close", "writer_created_between_polls_of_a_read"];
 
 /// C10: concurrent writers + reply flushing: complete, non-interleaved records.
 pub fn c10(cx: &mut Ctx) -> VResult {
